@@ -401,24 +401,35 @@ struct LookaroundParams {
 /// Represents an alternative path in a regex pattern.
 /// For example, in `/(?<a>x)|(?<a>y)/`, the two occurrences of 'a' are in different
 /// alternative paths (separated by |), so they don't conflict.
-/// Each element in the vector is (depth, alternative_index) where:
-/// - depth: parenthesis nesting level (0 = top level)
-/// - alternative_index: which alternative at that depth (0 = first, 1 = second after |, etc.)
+/// Each element in the vector is (group, alternative_index) where:
+/// - group: identifies the enclosing parenthesized group (0 = the whole pattern); every
+///   group of the pattern has its own number, so sibling groups are told apart
+/// - alternative_index: which alternative of that group (0 = first, 1 = second after |, etc.)
 #[derive(Debug, Clone, PartialEq, Eq)]
 struct AlternativePath {
-    /// Vector of (depth, alternative_index) pairs representing the path through alternatives
+    /// Vector of (group, alternative_index) pairs representing the path through alternatives
     segments: Vec<(usize, usize)>,
 }
 
 impl AlternativePath {
     /// Check if two alternative paths conflict (i.e., are in the same alternative branch).
-    /// Two paths conflict if they share the same alternative indices at all common depth levels.
+    /// Two paths conflict unless they pass through different alternatives of the same group.
     /// Example:
     ///   - [(0, 0)] and [(0, 0), (1, 0)] conflict (second is nested within first)
-    ///   - [(0, 0)] and [(0, 1)] don't conflict (different alternatives at depth 0)
+    ///   - [(0, 0)] and [(0, 1)] don't conflict (different alternatives of the pattern)
+    ///   - [(0, 0), (1, 0)] and [(0, 0), (2, 1)] conflict (sibling groups of one alternative)
     fn conflicts_with(&self, other: &AlternativePath) -> bool {
-        let min_len = self.segments.len().min(other.segments.len());
-        self.segments[..min_len] == other.segments[..min_len]
+        for (a, b) in self.segments.iter().zip(other.segments.iter()) {
+            if a.0 != b.0 {
+                // Different groups within the same alternative: both may participate.
+                return true;
+            }
+            if a.1 != b.1 {
+                // Different alternatives of the same group.
+                return false;
+            }
+        }
+        true
     }
 }
 
@@ -2022,11 +2033,10 @@ where
     fn collect_named_group_locations(
         &mut self,
     ) -> Result<HashMap<String, Vec<AlternativePath>>, Error> {
-        // Track parenthesis depth and alternative index at each depth
-        let mut paren_depth: usize = 0;
-        // Map from depth to current alternative index at that depth
-        let mut alt_indices: HashMap<usize, usize> = HashMap::new();
-        alt_indices.insert(0, 0);
+        // Stack of enclosing groups, each with the index of its current alternative.
+        // Group 0 is the whole pattern.
+        let mut enclosing: Vec<(usize, usize)> = vec![(0, 0)];
+        let mut next_group_number: usize = 1;
 
         // Map from group name to all alternative paths where it appears
         let mut named_group_locations: HashMap<String, Vec<AlternativePath>> = HashMap::new();
@@ -2084,11 +2094,8 @@ where
                     }
 
                     if let Some(name) = group_name {
-                        // Build current alternative path from depth 0 to current depth.
-                        let mut segments = Vec::new();
-                        for d in 0..=paren_depth {
-                            segments.push((d, *alt_indices.get(&d).unwrap_or(&0)));
-                        }
+                        // The current alternative path, from the whole pattern inwards.
+                        let segments = enclosing.clone();
 
                         // Record this location.
                         named_group_locations
@@ -2113,19 +2120,20 @@ where
                     }
 
                     // Entering a new group.
-                    paren_depth += 1;
-                    alt_indices.insert(paren_depth, 0);
+                    enclosing.push((next_group_number, 0));
+                    next_group_number += 1;
                 }
                 Some(')') => {
                     // Exiting a group
-                    if paren_depth > 0 {
-                        alt_indices.remove(&paren_depth);
-                        paren_depth -= 1;
+                    if enclosing.len() > 1 {
+                        enclosing.pop();
                     }
                 }
                 Some('|') => {
-                    // Moving to next alternative at current depth
-                    *alt_indices.entry(paren_depth).or_insert(0) += 1;
+                    // Moving to the next alternative of the current group
+                    if let Some(current) = enclosing.last_mut() {
+                        current.1 += 1;
+                    }
                 }
                 Some(_) => continue,
                 None => break,
